@@ -30,6 +30,7 @@ pub struct Knobs {
     pub p_metrics: u64,
     pub tail: u64,           // final quiet period (ms)
     pub subtype: bool,
+    pub max_dt: u64,         // upper bound of the pause after each action (ms)
 }
 
 impl Knobs {
@@ -51,6 +52,7 @@ impl Knobs {
             p_metrics: 0,
             tail: 20_000,
             subtype: false,
+            max_dt: 100_000,
         }
     }
 }
@@ -234,7 +236,7 @@ pub fn gen_world(r: &mut Rng, k: &Knobs) -> String {
                 cmds.push(format!("metrics {} {}", r.below(nd as u64), chan));
             }
         }
-        now += *r.pick(&[0u64, 1, 120, 250, 500, 999, 1000, 1001, 1500, 2000, 3000, 5000, 10_000, 60_000, 100_000]);
+        now += (*r.pick(&[0u64, 1, 120, 250, 500, 999, 1000, 1001, 1500, 2000, 3000, 5000, 10_000, 60_000, 100_000])).min(k.max_dt);
         cmds.push(format!("run {}", now));
     }
     now += k.tail;
